@@ -746,7 +746,7 @@ impl Aggregation for Min {
         events
             .iter()
             .filter_map(|e| e.get_numeric(&self.field))
-            .min_by(|a, b| a.partial_cmp(b).unwrap())
+            .fold(None, |acc: Option<f64>, x| Some(acc.map_or(x, |m| m.min(x))))
             .map(AggregateResult::Number)
             .unwrap_or(AggregateResult::None)
     }
@@ -771,7 +771,7 @@ impl Aggregation for Max {
         events
             .iter()
             .filter_map(|e| e.get_numeric(&self.field))
-            .max_by(|a, b| a.partial_cmp(b).unwrap())
+            .fold(None, |acc: Option<f64>, x| Some(acc.map_or(x, |m| m.max(x))))
             .map(AggregateResult::Number)
             .unwrap_or(AggregateResult::None)
     }
